@@ -440,7 +440,7 @@ def check_property(pid, tier, seed, only_sub=None, jobs=None):
     }
     if harness:
         ev['coverage']['harness_errors'] = [h[1][-500:] for h in harness]
-    if not only_sub:
+    if not only_sub and os.path.realpath(REPO) == '/repo':
         os.makedirs(os.path.join(VERIF, 'evidence'), exist_ok=True)
         with open(os.path.join(VERIF, 'evidence', pid + '.json'), 'w') as f:
             f.write(json.dumps(ev, indent=1, sort_keys=True, default=_jd))
